@@ -167,3 +167,7 @@ func init() {
 func init() {
 	claim("C17", "Z1", "Z2", "Z3", "Z4", "Z5")
 }
+
+func init() {
+	claim("C16", "L1", "L2", "L3", "L5", "Z1", "Z2", "Z4", "ZONCE")
+}
